@@ -3,6 +3,7 @@ import glob
 import json
 import os
 from . import common as C
+from . import corpora
 from . import tracecheck as T
 from . import multijudge as J
 from . import persistjudge as P
@@ -87,6 +88,9 @@ def run_c11(tier, seed, replay):
                     for cf in corpus:
                         f.write(open(cf).read() + "\n")
                 batches.append(("corpus", dict(script=script)))
+            gscript = os.path.join(d, "directed.script")
+            if corpora.write_for(pid, tier, gscript):
+                batches.append(("directed", dict(script=gscript)))
             k = 15 if tier == "thorough" else 1
             batches.append(("reopen-peb", dict(profile="reopen", cases=30 * k, length=40, backend="peb", seed=seed * 1000 + 31)))
             batches.append(("reopen-mem", dict(profile="reopen", cases=30 * k, length=40, backend="mem", seed=seed * 1000 + 32)))
@@ -160,6 +164,9 @@ def run_c12(tier, seed, replay):
             batches.append(("replay", dict(script=script), ("GC", "FLUSH", "FAULTS")))
         else:
             k = 15 if tier == "thorough" else 1
+            gscript = os.path.join(d, "directed.script")
+            if corpora.write_for(pid, tier, gscript):
+                batches.append(("directed", dict(script=gscript), ("GC", "FLUSH")))
             batches.append(("evict-peb", dict(profile="evict", cases=24 * k, length=40, backend="peb", seed=seed * 1000 + 41), ("GC", "FLUSH")))
             batches.append(("evict-mem", dict(profile="evict", cases=24 * k, length=40, backend="mem", seed=seed * 1000 + 42), ("GC", "FLUSH")))
             batches.append(("faults-peb", dict(profile="faults", cases=16 * k, length=40, backend="peb", seed=seed * 1000 + 43), ("GC", "FLUSH", "FAULTS")))
